@@ -2,6 +2,8 @@ package main
 
 import (
 	"fmt"
+	"go/token"
+	"go/types"
 	"sort"
 	"strings"
 
@@ -92,7 +94,7 @@ func sharedWriteObligations(c *Ctx, rule, scopeName string, fns map[*ssa.Functio
 
 func checkC16(c *Ctx) {
 	r, t := c.R, c.T
-	r.Explanation = "Decides the write-discipline half of race freedom for all schedules: (1) RUN-WRITES: no function reachable from Script.Run/RefRun and the 23 registered builtins (v1), nor from runtimev2 Script.Run and the GetParam* helpers (v2), writes (field store, element store, map update, delete, copy) through any address that passes through a type of pkg/ast, runtime.Script or the v2 script/function descriptors, whatever its root, and none writes a package-level variable; (2) LOAD-WRITES / PARSE-WRITES: functions reachable from the load entry points and from ParsePipeline write no package-level variable (sync.Pool method calls excepted); in the parse scope, writes through pkg/ast types have as root an object allocated by the writing function or a node parameter handed between constructors (the tree under construction); (3) ANNOTATIONS: the load-time caches on the tree (CallExpr.Grok/Re/PrivateData/ParamNormalized, Script.CallRef) are written only by functions of the load scope and by none of the run scopes; (4) POOL-NO-ESCAPE: the pooled task obtained in Run/RefRun/Check is stored nowhere but in locals and handed to no goroutine; (4b) USE-AFTER-RELEASE: after a non-deferred release of a pooled object (sync.Pool.Put or a Put* helper) no later instruction of that function uses the object or an address derived from it; (5) every dynamic call site in the scopes is bound (builtin/checker registry, lexer state functions) or listed. Reachability uses explicitly resolved callees (static calls, in-module interface implementations, registry values), not CHA, because FuncsMap and FuncsCheckMap share one Go signature. Not decided: races inside third-party code (grok, zap, time zone cache), equality of concurrent and sequential results."
+	r.Explanation = "Decides the write-discipline half of race freedom for all schedules: (1) RUN-WRITES: no function reachable from Script.Run/RefRun and the 23 registered builtins (v1), nor from runtimev2 Script.Run and the GetParam* helpers (v2), writes (field store, element store, map update, delete, copy) through any address that passes through a type of pkg/ast, runtime.Script or the v2 script/function descriptors, whatever its root, and none writes a package-level variable; (2) LOAD-WRITES / PARSE-WRITES: functions reachable from the load entry points and from ParsePipeline write no package-level variable (sync.Pool method calls excepted); in the parse scope, writes through pkg/ast types have as root an object allocated by the writing function or a node parameter handed between constructors (the tree under construction); (3) ANNOTATIONS: the load-time caches on the tree (CallExpr.Grok/Re/PrivateData/ParamNormalized, Script.CallRef) are written only by functions of the load scope and by none of the run scopes; (4) POOL-NO-ESCAPE: the pooled task obtained in Run/RefRun/Check is stored nowhere but in locals and handed to no goroutine; (4b) USE-AFTER-RELEASE: after a non-deferred release of a pooled object (sync.Pool.Put or a Put* helper) no later instruction of that function uses the object or an address derived from it; (4c) SCRIPT-ALIAS: a task field that an init function fills with a slice or map of the loaded script (Task.callRef = Script.CallRef) is never appended to, stored into or updated by a function of the run scope; (5) every dynamic call site in the scopes is bound (builtin/checker registry, lexer state functions) or listed. Reachability uses explicitly resolved callees (static calls, in-module interface implementations, registry values), not CHA, because FuncsMap and FuncsCheckMap share one Go signature. Not decided: races inside third-party code (grok, zap, time zone cache), equality of concurrent and sequential results."
 	r.Trusted = []string{"github.com/GuanceCloud/grok (*GrokRegexp is used read-only at run time)", "go.uber.org/zap loggers", "time.LoadLocation cache", "spf13/cast", "sync.Pool"}
 	run := runScope(t)
 	v2, v2un := v2Scope(t)
@@ -103,6 +105,8 @@ func checkC16(c *Ctx) {
 	sharedWriteObligations(c, "LOAD-WRITES", "load", load, false)
 	sharedWriteObligations(c, "PARSE-WRITES", "parse", parse, false)
 	r.Counts["writes_inspected_run"] = n
+	// task fields that alias the loaded script's slices are only read at run time
+	r.FloorN("task fields aliasing script storage", scriptAliasRule(c, "SCRIPT-ALIAS", run), 1)
 	r.FloorN("functions in run scope v1", len(run), 150)
 	r.FloorN("functions in run scope v2", len(v2), 60)
 	r.FloorN("functions in load scope", len(load), 200)
@@ -362,4 +366,101 @@ func useAfterRelease(c *Ctx, rule string, pkgs []string) {
 		}
 	}
 	r.FloorN("non-deferred release sites inspected", n, 1)
+}
+
+// scriptAliasRule: a task field that an init function fills with a slice or map read from the loaded script
+// (`ctx.callRef = script.CallRef`) is an alias of storage owned by the script, shared by every goroutine running it.
+// In the run scopes nothing may append to, store into or update such a field's value: an append writes into the
+// shared backing array whenever it has spare capacity.
+func scriptAliasRule(c *Ctx, rule string, scope map[*ssa.Function]bool) int {
+	r, t := c.R, c.T
+	aliased := map[string]string{} // task field -> where it is bound to the script
+	for _, pp := range []string{pRT, pRT2} {
+		for _, f := range t.PkgFuncs(pp) {
+			allInstrs(f, func(in ssa.Instruction) {
+				s, ok := in.(*ssa.Store)
+				if !ok {
+					return
+				}
+				fa, ok := s.Addr.(*ssa.FieldAddr)
+				if !ok || !strings.HasSuffix(namedOf(fa.X.Type()), ".Task") {
+					return
+				}
+				switch s.Val.Type().Underlying().(type) {
+				case *types.Slice, *types.Map:
+				default:
+					return
+				}
+				// the stored value is read through a *Script
+				v := s.Val
+				for i := 0; i < 8; i++ {
+					ld, isL := v.(*ssa.UnOp)
+					if !isL || ld.Op != token.MUL {
+						break
+					}
+					fa2, isF := ld.X.(*ssa.FieldAddr)
+					if !isF {
+						break
+					}
+					if strings.HasSuffix(namedOf(fa2.X.Type()), ".Script") {
+						aliased[fieldName(fa)] = relName(f) + " binds it to Script." + fieldName(fa2)
+						break
+					}
+					v = fa2.X
+				}
+			})
+		}
+	}
+	r.Extra["task_fields_aliasing_script_storage"] = aliased
+	isAliased := func(v ssa.Value) (string, bool) {
+		ld, ok := v.(*ssa.UnOp)
+		if !ok || ld.Op != token.MUL {
+			return "", false
+		}
+		fa, ok := ld.X.(*ssa.FieldAddr)
+		if !ok || !strings.HasSuffix(namedOf(fa.X.Type()), ".Task") {
+			return "", false
+		}
+		_, has := aliased[fieldName(fa)]
+		return fieldName(fa), has
+	}
+	n := 0
+	var list []*ssa.Function
+	for f := range scope {
+		list = append(list, f)
+	}
+	sortFuncs(list)
+	for _, f := range list {
+		k := 0
+		allInstrs(f, func(in ssa.Instruction) {
+			what, fld := "", ""
+			switch x := in.(type) {
+			case *ssa.Call:
+				if builtinName(x) == "append" && len(x.Call.Args) > 0 {
+					if fl, ok := isAliased(x.Call.Args[0]); ok {
+						what, fld = "append to", fl
+					}
+				}
+			case *ssa.Store:
+				if ia, ok := x.Addr.(*ssa.IndexAddr); ok {
+					if fl, ok := isAliased(ia.X); ok {
+						what, fld = "element store into", fl
+					}
+				}
+			case *ssa.MapUpdate:
+				if fl, ok := isAliased(x.Map); ok {
+					what, fld = "map update of", fl
+				}
+			}
+			if what == "" {
+				return
+			}
+			k++
+			n++
+			r.Ob(rule, fmt.Sprintf("%s %s Task.%s #%d", relName(f), what, fld, k), t.Pos(in.Pos()), false,
+				"Task."+fld+" aliases storage of the loaded script ("+aliased[fld]+"): a write through it at run time is a write to memory shared by every goroutine running the script")
+		})
+	}
+	r.Ob(rule, "task fields that alias script storage are only read at run time", "", true, fmt.Sprintf("aliased fields: %v; %d functions in the run scope inspected", sortedKeys(aliased), len(list)))
+	return len(aliased)
 }
